@@ -25,17 +25,20 @@ class Suspend:
         yield 'susp'
 
 
-# marker line 0 at the start of the body, marker line 1 in the clean-up code (finally:), which
-# runs on exhaustion as well as when the object is closed early, thrown into or dropped.
+# marker line 0 at the start of the body; marker line 1 in the middle (after the first suspension
+# of generator / coroutine / async-generator bodies) - in mode 'raise' the exception is raised FROM
+# that line; marker line 2 in the clean-up code (finally:), which runs on exhaustion, on the raise,
+# and when the object is closed early, thrown into or dropped.  SUSP_LINE is the line of the first
+# suspension: it executes as often as marker 0 and is where close()/throw() interrupt the body.
 # The text does not mention the leaf's number (it is the global ME of the namespace the
 # function is defined in): all leaves of one kind are textually identical functions of the
 # same name at the same line of DIFFERENT files, i.e. their code objects compare equal by
 # value (co_filename is not part of code equality) - as for a vendored / copied module.
 SRC = {
-    0: "def f(*a, **k):\n    T(ME, 0)\n    T(ME, 1)\n    return ME\n",
-    1: "def f(*a, **k):\n    T(ME, 0)\n    try:\n        yield 1\n        yield 2\n    finally:\n        T(ME, 1)\n",
-    2: "async def f(*a, **k):\n    T(ME, 0)\n    try:\n        await SUSP()\n    finally:\n        T(ME, 1)\n    return ME\n",
-    3: "async def f(*a, **k):\n    T(ME, 0)\n    try:\n        yield 1\n        await SUSP()\n        yield 2\n    finally:\n        T(ME, 1)\n",
+    0: "def f(*a, **k):\n    T(ME, 0)\n    try:\n        T(ME, 1)\n    finally:\n        T(ME, 2)\n    return ME\n",
+    1: "def f(*a, **k):\n    T(ME, 0)\n    try:\n        yield 1\n        T(ME, 1)\n        yield 2\n    finally:\n        T(ME, 2)\n",
+    2: "async def f(*a, **k):\n    T(ME, 0)\n    try:\n        await SUSP()\n        T(ME, 1)\n    finally:\n        T(ME, 2)\n    return ME\n",
+    3: "async def f(*a, **k):\n    T(ME, 0)\n    try:\n        yield 1\n        await SUSP()\n        T(ME, 1)\n        yield 2\n    finally:\n        T(ME, 2)\n",
 }
 # The same bodies as ONE `def` inside a factory that is executed once per leaf: all such leaves
 # share the very same code object (same file, same line) and differ only in __kwdefaults__
@@ -46,8 +49,9 @@ def _factory(src):
 
 
 SRC_DEF = {k: _factory(v) for k, v in SRC.items()}
-MARK_LINES = {0: (2, 3), 1: (2, 7), 2: (2, 6), 3: (2, 8)}
-MODES = ['exhaust', 'close', 'throw', 'drop']
+MARK_LINES = {0: (2, 4, 6), 1: (2, 5, 8), 2: (2, 5, 7), 3: (2, 6, 9)}
+SUSP_LINE = {1: 4, 2: 4, 3: 4}
+MODES = ['exhaust', 'raise', 'close', 'throw', 'drop']
 
 
 class Boom(BaseException):
@@ -63,6 +67,16 @@ def drive(aw):
 
 
 def consume(r, mode='exhaust'):
+    if mode == 'raise':
+        try:
+            _consume(r, 'exhaust')
+        except Boom:
+            pass
+        return
+    _consume(r, mode)
+
+
+def _consume(r, mode='exhaust'):
     """Use up what an access returned.  mode: run it to the end / advance to the first
     suspension and then close() it / throw into it / let go of it (the caller holds no other
     reference, so it is finalised as soon as this returns)."""
@@ -126,6 +140,8 @@ class Ctx:
         else:
             self.deco = self.prof
         self.same_def = same_def
+        self.raising = False
+        self.hook0 = None
         self.factories = {}
         self.fname = {}
         self.caseno = caseno
@@ -142,12 +158,17 @@ class Ctx:
         d = int(self.prof.enable_count)
         if j == 0:
             self.runs.append([i, d])
+            hook, self.hook0 = self.hook0, None
+            if hook is not None:
+                hook()                 # e.g. another thread makes a complete profiled call now
         else:
             for r in reversed(self.runs):
                 if r[0] == i:
                     if r[1] != d:
                         r[1] = -1
                     break
+            if j == 1 and self.raising:
+                raise Boom()           # the exception originates on the marker-1 line of the body
 
     def leaf(self, k, i):
         if i in self.byid:          # the same function object used twice inside one object
@@ -169,7 +190,7 @@ class Ctx:
         self.leaves[id(f)] = (i, k)
         self.byid[i] = f
         self.kinds[i] = k
-        self.execs[i] = [0, 0]
+        self.execs[i] = [0, 0, 0]
         self.order.append(i)
         return f
 
@@ -255,21 +276,26 @@ def leaf_kinds(t):
 
 
 def hits_execs(ctx, ids, h0, h1):
-    """[hits of marker 0, marker 1] and executions per leaf in `ids`.  Leaves made by one `def`
-    share their statistics key: a leaf is then credited what is left of the key's hits after the
-    exact executions of the other leaves of that key (equal to its own executions iff the key's
-    total is exact)."""
-    hits, execs = [], []
+    """Per leaf in `ids`: hits and exact executions of [marker 0, marker 1, marker 2, first-suspension
+    line (non-plain kinds)], and separately the executions of markers 0 and 2 (once per run, what the
+    model predicts).  Leaves made by one `def` share their statistics key: a leaf is then credited what
+    is left of the key's hits after the exact executions of the other leaves of that key (equal to its
+    own executions iff the key's total is exact)."""
+    hits, execs, model = [], [], []
     for i in ids:
         fname = ctx.fname[i]
+        k = ctx.kinds[i]
         off = 1 if ctx.same_def else 0
         mates = [j for j in set(ctx.order) if ctx.fname[j] == fname and j != i]
-        for j, ln in enumerate(MARK_LINES[ctx.kinds[i]]):
-            ln += off
-            tot = h1.get(fname, {}).get(ln, 0) - h0.get(fname, {}).get(ln, 0)
+        rows = [(ln, j) for j, ln in enumerate(MARK_LINES[k])]
+        if k in SUSP_LINE:
+            rows.append((SUSP_LINE[k], 0))        # executes exactly as often as marker 0
+        for ln, j in rows:
+            tot = h1.get(fname, {}).get(ln + off, 0) - h0.get(fname, {}).get(ln + off, 0)
             hits.append(tot - sum(ctx.execs[m][j] for m in mates))
             execs.append(ctx.execs[i][j])
-    return hits, execs
+        model += [ctx.execs[i][0], ctx.execs[i][2]]
+    return hits, execs, model
 
 
 def plan_for(t):
@@ -292,19 +318,21 @@ def plan_for(t):
         base = [('cget', 0), ('cget2', 0), ('cget', 1)]
     else:
         raise ValueError(t)
-    modes = MODES if (leaf_kinds(t) - {0}) else ['exhaust']
+    modes = MODES if (leaf_kinds(t) - {0}) else ['exhaust', 'raise']
     if tag == 'cp':
         modes = [m for m in modes if m != 'drop']    # the value stays cached on the instance
     plan = []
     first = [b for b in base if b[1] == 0 and b[0] not in ('cget2',)][:1]
     for m in modes:
         for how, d in base:
-            if how in ('set', 'del', 'cget2') and m != 'exhaust':
+            if (how == 'cget2' and m != 'exhaust') or (how in ('set', 'del') and m not in ('exhaust', 'raise')):
                 continue                              # nothing to consume there
             plan.append((how, d, m))
     for how, d in first:        # the same use from / beside another thread
         plan.append((how, 0, 'thread:worker'))
         plan.append((how, 0, 'thread:main'))
+        plan.append((how, 0, 'thread:short-other'))
+        plan.append((how, 0, 'thread:short-other-w'))
     return plan
 
 
@@ -353,8 +381,9 @@ def while_other_thread_inside(ctx, fn):
         raise box[0]
 
 
-def perform(ctx, obj, plan):
-    """Use `obj` through every access of the plan; returns the runs of each."""
+def perform(ctx, obj, plan, threads=True):
+    """Use `obj` through every access of the plan; returns the runs of each.  threads=False: the
+    accesses that involve a second thread are made plainly in this thread (same expected outcome)."""
     C = type('C', (), {'x': obj})
     out = []
     state = {}
@@ -377,24 +406,50 @@ def perform(ctx, obj, plan):
             consume(state['inst'].x, mode)
         elif how == 'cget2':
             state['inst'].x          # cached: nothing runs; the cached value is not used again
+    def short_section_elsewhere():
+        def sect():
+            with ctx.prof:
+                pass
+        in_thread(sect)
+
+    def guarded(how, mode):
+        ctx.raising = (mode == 'raise')
+        try:
+            act(how, mode)
+        except Boom:
+            pass
+        finally:
+            ctx.raising = False
+            ctx.hook0 = None
+
     for how, d, mode in plan:
         ctx.runs = []
         where = 'here'
         if mode.startswith('thread:'):
-            where, mode = mode, 'exhaust'
+            where, mode = (mode if threads else 'here'), 'exhaust'
         if where == 'thread:worker':
             # the access happens in a worker thread (its own enable depth 0) while the main
             # thread is inside a profiled section
             with ctx.prof:
-                in_thread(lambda: act(how, mode))
+                in_thread(lambda: guarded(how, mode))
         elif where == 'thread:main':
             # ... and in the main thread while a worker is inside a profiled section
-            while_other_thread_inside(ctx, lambda: act(how, mode))
+            while_other_thread_inside(ctx, lambda: guarded(how, mode))
+        elif where == 'thread:short-other':
+            # while this thread is INSIDE the underlying function (just after its first line), another
+            # thread makes a complete profiled section (enable ... disable) and ends; the rest of the
+            # function's lines must still be counted
+            ctx.hook0 = short_section_elsewhere
+            guarded(how, mode)
+        elif where == 'thread:short-other-w':
+            # the same with the function running in a worker thread
+            ctx.hook0 = short_section_elsewhere
+            in_thread(lambda: guarded(how, mode))
         elif d:
             with ctx.prof:
-                act(how, mode)
+                guarded(how, mode)
         else:
-            act(how, mode)
+            guarded(how, mode)
         out.append(ctx.runs)
     state.clear()
     return out
@@ -433,7 +488,7 @@ def run_case(caseno, case):
             main_ids = ctx.order[len(sib_ids):]
             res['regs0'] = ctx.func_ids()
             res['leaf_ids'] = list(main_ids)
-            res['orig'] = enc_runs(perform(ctx, obj, plan))
+            res['orig'] = enc_runs(perform(ctx, obj, plan, threads=False))
             p1 = ctx.deco(obj)
             res['funcs1'] = ctx.func_ids()
             res['shape1'] = ctx.describe(p1)
@@ -443,13 +498,13 @@ def run_case(caseno, case):
             res['same_object'] = p2 is p1
             h0 = ctx.hits()
             for i in set(ctx.order):
-                ctx.execs[i] = [0, 0]
+                ctx.execs[i] = [0, 0, 0]
             res['runs1'] = enc_runs(perform(ctx, p1, plan))
-            res['runs2'] = enc_runs(perform(ctx, p2, plan))
+            res['runs2'] = enc_runs(perform(ctx, p2, plan, threads=False))
             res['sib_runs'] = [enc_runs(perform(ctx, w, first)) for w in kept]
             h1 = ctx.hits()
-            res['hits'], res['execs'] = hits_execs(ctx, main_ids, h0, h1)
-            res['sib_hits'], res['sib_execs'] = hits_execs(ctx, sib_ids, h0, h1)
+            res['hits'], res['execs_all'], res['execs'] = hits_execs(ctx, main_ids, h0, h1)
+            res['sib_hits'], res['sib_execs_all'], res['sib_execs'] = hits_execs(ctx, sib_ids, h0, h1)
             res['count_after'] = int(ctx.prof.enable_count)
     except BaseException as e:  # noqa
         res['err'] = '%s: %s' % (type(e).__name__, e)
